@@ -298,17 +298,27 @@ func (b *build) runWorker(spec Spec, gomaxprocs int, timeout time.Duration) ([]R
 		werr = fmt.Errorf("worker watchdog: killed after %v", timeout)
 	}
 	var res []Result
+	complete := false
 	f, err := os.Open(spec.Out)
 	if err == nil {
 		sc := bufio.NewScanner(f)
 		sc.Buffer(make([]byte, 1<<20), 1<<30)
 		for sc.Scan() {
+			if strings.HasPrefix(sc.Text(), `{"done":true}`) {
+				complete = true
+				continue
+			}
 			var r Result
 			if json.Unmarshal(sc.Bytes(), &r) == nil {
 				res = append(res, r)
 			}
 		}
 		f.Close()
+	}
+	if complete {
+		werr = nil // the worker finished its work list; its exit status only reflects by-design failing sub-tests
+	} else if werr == nil {
+		werr = fmt.Errorf("worker exited without completion marker")
 	}
 	if werr != nil {
 		tail := outBuf.String()
@@ -702,7 +712,7 @@ func aggregate(b *build, prop string, cfg *propCfg, tier string, seed uint64, al
 	stats := map[string]int{}
 	shapes := map[uint64]bool{}
 	keys := map[uint64]bool{}
-	var simNs int64
+	var simNs float64
 	var samples []any
 	harness := []string{}
 	type vrec struct {
@@ -726,7 +736,7 @@ func aggregate(b *build, prop string, cfg *propCfg, tier string, seed uint64, al
 		if r.Nontriv {
 			keys[r.Key] = true
 		}
-		simNs += r.SimNs
+		simNs += float64(r.SimNs)
 		if r.Sample != "" && len(samples) < 5 && (r.Idx%7 == 0 || len(all) < 40) {
 			samples = append(samples, map[string]any{"run_index": r.Idx, "case": r.Sample})
 		}
@@ -808,7 +818,7 @@ func aggregate(b *build, prop string, cfg *propCfg, tier string, seed uint64, al
 		"samples":                   samples,
 		"runs_per_hour":             int(float64(len(all)) / searchS * 3600),
 		"seeds_per_hour":            int(float64(len(all)) / searchS * 3600),
-		"simulated_time_s":          float64(simNs) / 1e9,
+		"simulated_time_s":          simNs / 1e9,
 		"simulated_time_note":       cfg.SimTimeNote,
 		"faults_fired":              faults,
 		"probes":                    probes,
